@@ -115,6 +115,9 @@ type c44Case struct {
 	Mut      string `json:"mut"`
 	MutArg   uint64 `json:"mutarg"`
 	OtherKey int    `json:"otherkey"`
+	// history on the SAME object: after the first encoding the object is changed in place and encoded again
+	Hist    string `json:"hist,omitempty"`
+	HistArg uint64 `json:"histarg,omitempty"`
 	// garbage mode
 	Raw     ev.B `json:"raw,omitempty"`
 	RawType int  `json:"rawtype,omitempty"`
@@ -244,7 +247,97 @@ func genC44(t *rapid.T) c44Case {
 	}
 	c.Mut = rapid.SampledFrom(muts).Draw(t, "mut")
 	c.MutArg = rapid.Uint64().Draw(t, "mutarg")
+	if rapid.Bool().Draw(t, "hist?") {
+		if c.Kind == "proposal" || c.Kind == "blockfetchresp" {
+			c.Hist = rapid.SampledFrom(c44BlockHists).Draw(t, "hist")
+		} else {
+			c.Hist = "field"
+		}
+		c.HistArg = rapid.Uint64().Draw(t, "histarg")
+	}
 	return c
+}
+
+// in-place changes of a message that holds a vbft.Block, between two encodings of the same object
+var c44BlockHists = []string{"seal", "seal", "tx+root", "height", "consdata", "empty.height", "empty.seal", "drop-empty", "resign-other", "info"}
+
+// histMutate changes m IN PLACE (what a node does to a proposal it already broadcast: sealing
+// rewrites Header.Bookkeepers/SigData, a fetch response is served from the same object later).
+// It returns whether, for a proposal, the signer's signature must still verify afterwards
+// (+1), must fail (-1) or is not judged (0).
+func histMutate(c c44Case, m vbft.ConsensusMsg, other int) int {
+	var blk *vbft.Block
+	switch x := m.(type) {
+	case *vbft.VerifBlockProposalMsg:
+		blk = x.Block
+	case *vbft.BlockFetchRespMsg:
+		blk = x.BlockData
+	case *vbft.VerifBlockEndorseMsg:
+		x.BlockNum ^= nz32(c.HistArg)
+		x.EndorseForEmpty = !x.EndorseForEmpty
+		return 0
+	case *vbft.VerifBlockCommitMsg:
+		x.BlockNum ^= nz32(c.HistArg)
+		if x.EndorsersSig == nil {
+			x.EndorsersSig = map[uint32][]byte{}
+		}
+		x.EndorsersSig[uint32(c.HistArg%9)] = []byte{byte(c.HistArg), 1}
+		return 0
+	default:
+		mutateGeneric(m, c.HistArg)
+		return 0
+	}
+	seal := func(b *types.Block) {
+		// like addSignaturesToBlockLocked: fresh slices assigned to the header
+		h := b.Hash()
+		bk := []keypair.PublicKey{b.Header.Bookkeepers[0]}
+		sd := [][]byte{b.Header.SigData[0]}
+		for i := 0; i < 1+int(c.HistArg%3); i++ {
+			p := (other + i) % 10
+			bk = append(bk, pubOf(p))
+			sd = append(sd, signHash(p, h))
+		}
+		b.Header.Bookkeepers, b.Header.SigData = bk, sd
+	}
+	hist := c.Hist
+	if strings.HasPrefix(hist, "empty.") && blk.EmptyBlock == nil {
+		hist = strings.TrimPrefix(hist, "empty.")
+	}
+	switch hist {
+	case "seal":
+		seal(blk.Block)
+		return +1
+	case "empty.seal":
+		seal(blk.EmptyBlock)
+		return +1
+	case "tx+root":
+		blk.Block.Transactions = append(blk.Block.Transactions, mkTx(uint32(c.HistArg), []byte{0xEE, 0x01}))
+		blk.Block.Header.TransactionsRoot = txRoot(blk.Block.Transactions)
+		return -1
+	case "height":
+		blk.Block.Header.Height ^= nz32(c.HistArg)
+		return -1
+	case "consdata":
+		blk.Block.Header.ConsensusData ^= c.HistArg | 1
+		return -1
+	case "empty.height":
+		blk.EmptyBlock.Header.Height ^= nz32(c.HistArg)
+		return -1
+	case "drop-empty":
+		blk.EmptyBlock = nil
+		return 0
+	case "resign-other":
+		blk.Block.Header.SigData = [][]byte{signHash(other, blk.Block.Hash())}
+		blk.Block.Header.Bookkeepers = []keypair.PublicKey{pubOf(other)}
+		return -1
+	case "info":
+		// the decoder derives Info from the header's consensus payload: change both consistently
+		blk.Info.Proposer ^= nz32(c.HistArg)
+		pl, _ := json.Marshal(blk.Info)
+		blk.Block.Header.ConsensusPayload = pl
+		return -1
+	}
+	return 0
 }
 
 // ---- building the objects from the case
@@ -631,6 +724,45 @@ func runC44(ctx *ev.Ctx, c c44Case) {
 		ctx.Failf("%s does not re-serialise identically:\n first  %s\n second %s", c.Kind, clipS(string(b1)), clipS(string(b2)))
 	}
 
+	// ---- 1b. history on the same object: change it in place, encode AGAIN, decode: must be the current object
+	if c.Hist != "" && c.Mode == "msg" {
+		ctx.Label("hist:" + c.Hist)
+		if c.Kind == "proposal" {
+			verifyMsg(ctx, m, signerPk) // a node verifies (and thereby hashes) a proposal before it keeps it
+		}
+		o := (c.Signer + c.OtherKey) % 10
+		if o == c.Signer {
+			o = (c.Signer + 1) % 10
+		}
+		before := canonMsg(m)
+		expect := histMutate(c, m, o)
+		after := canonMsg(m)
+		b4 := ser(ctx, c.Kind+" (same object, changed in place)", m)
+		m4, err := deser(ctx, c.Kind+" (same object, changed in place)", b4)
+		if err != nil {
+			ctx.Failf("%s changed in place (%s) and encoded again does not decode: %v", c.Kind, c.Hist, err)
+		}
+		if got := canonMsg(m4); got != after {
+			stale := ""
+			if got == before {
+				stale = " (it is the object as it was at the FIRST encoding)"
+			}
+			ctx.Failf("%s encoded, changed in place (%s) and encoded again: the decoded message is not the current object%s:\n current %s\n decoded %s", c.Kind, c.Hist, stale, clipS(after), clipS(got))
+		}
+		if c.Kind == "proposal" && after != before {
+			verr := verifyMsg(ctx, m4, signerPk)
+			if expect > 0 && verr != nil {
+				ctx.Failf("proposal sealed in place (%s) no longer verifies under its proposer's key after the wire: %v", c.Hist, verr)
+			}
+			if expect < 0 && verr == nil {
+				ctx.Failf("proposal changed in place after signing (%s) and sent again still verifies under the proposer's key", c.Hist)
+			}
+		}
+		if after != before {
+			ctx.NonTrivial()
+		}
+	}
+
 	// outer payload, signed by the sender
 	pay := &ptypes.ConsensusPayload{Version: c.PVersion, PrevHash: h256(c.PPrev), Height: c.PHeight, BookkeeperIndex: c.PBkIdx, Timestamp: c.PTime,
 		Data: b1, Owner: signerPk, PeerId: c.PPeerID}
@@ -825,6 +957,9 @@ func runC44(ctx *ev.Ctx, c c44Case) {
 	}
 	m3, derr := deser(ctx, c.Kind+" mutated "+c.Mut, b3)
 	if c.Mut != "key" && bytes.Equal(b3, b1) {
+		if derr == nil && canonMsg(m2) != canonMsg(m3) {
+			ctx.Failf("%s was changed in place (%s) but its encoding did not change: the bytes still describe the object as it was before", c.Kind, c.Mut)
+		}
 		ctx.Label("mut:noop")
 		return
 	}
@@ -1063,7 +1198,7 @@ func runC44Garbage(ctx *ev.Ctx, c c44Case, inner, msgWire, payWire []byte) {
 
 func TestC44(t *testing.T) {
 	ev.Drive(t, "C44",
-		"cases: one VBFT message of each of the 10 kinds with generated fields (blocks with 0..4 transactions, optional empty block, multi-signature headers, chain configs, fault reports, signature maps; nil vs empty containers), wrapped in a signed ConsensusPayload, plus one mutation (every signed header/payload field, signatures, key substitution, transactions with and without a recomputed root, unsigned envelope fields) or, in mode garbage, damaged/arbitrary bytes. "+
+		"cases: one VBFT message of each of the 10 kinds with generated fields (blocks with 0..4 transactions, optional empty block, multi-signature headers, chain configs, fault reports, signature maps; nil vs empty containers), wrapped in a signed ConsensusPayload, optionally a history on the same object (encode, change in place - sealing signatures/bookkeepers added, transactions, height, empty block, info - encode again: the decode must be the current object and a proposal changed after signing must not verify), plus one mutation (every signed header/payload field, signatures, key substitution, transactions with and without a recomputed root, unsigned envelope fields) or, in mode garbage, damaged/arbitrary bytes. "+
 			"non-trivial: the mutation changed the bytes on the wire and the case was judged (decode or Verify had to reject it), or garbage bytes went through all decoders; distinct by JSON encoding of the case",
 		genC44, runC44)
 }
